@@ -8,7 +8,7 @@
 (*   features : 0..31     bit 4 = encrypted, bit 3 = reserved, bits 0-2 user*)
 (* Nothing else: no check value, no padding - those are derived.            *)
 (***************************************************************************)
-EXTENDS Integers, Sequences, Bitwise, Bytes, GF2048
+EXTENDS Integers, Sequences, Bytes, GF2048
 
 SecretBytes == 19
 SecretBits  == 150
@@ -46,7 +46,7 @@ TenBits(sec, from, n) ==   \* value of bits from..from+n-1
 DataWord(seed, j) == 2 * TenBits(seed.secret, 10 * (j - 1), 10) + ExtraBit(seed, j - 1)
 
 \* the 16 word indices of a seed for coin 0, check word included
-Words(seed) == WithCheck([i \in 1..NW |-> IF i = 1 THEN 0 ELSE DataWord(seed, i - 1)])
+Words(seed) == WithCheck(Mat([i \in 1..NW |-> IF i = 1 THEN 0 ELSE DataWord(seed, i - 1)], NW))
 
 CheckOf(seed) == Words(seed)[1]
 
@@ -59,12 +59,12 @@ BitsVal(w, from, n) == IF n = 0 THEN 0 ELSE 2 * BitsVal(w, from, n - 1) + WordBi
 RECURSIVE ExtraVal(_, _)
 ExtraVal(w, n) == IF n = 0 THEN 0 ELSE 2 * ExtraVal(w, n - 1) + (w[n + 1] % 2)
 
-Unwords(w) ==
-    LET extra == ExtraVal(w, 15)
-    IN [ secret   |-> [i \in 1..SecretBytes |->
-                           IF i < 19 THEN BitsVal(w, 8 * (i - 1), 8) ELSE BitsVal(w, 144, 6)],
-         birthday |-> extra % 1024,
-         features |-> extra \div 1024 ]
+UnwordsOf(w, extra) ==
+    [ secret   |-> Mat([i \in 1..SecretBytes |->
+                           IF i < 19 THEN BitsVal(w, 8 * (i - 1), 8) ELSE BitsVal(w, 144, 6)], SecretBytes),
+      birthday |-> extra % 1024,
+      features |-> extra \div 1024 ]
+Unwords(w) == UnwordsOf(w, ExtraVal(w, 15))
 
 -----------------------------------------------------------------------------
 (* Features                                                                 *)
@@ -135,15 +135,15 @@ KeygenSalt(seed, coin) == KeySaltTag \o << 0, 255, 255, 255 >> \o LE32(coin)
 
 \* password operation: XOR the first 19 mask bytes, keep 150 bits, toggle the encrypted bit
 CryptApply(seed, mask32) ==
-    [ secret   |-> [i \in 1..SecretBytes |->
+    [ secret   |-> Mat([i \in 1..SecretBytes |->
                        IF i < 19 THEN seed.secret[i] ^^ mask32[i]
-                                 ELSE (seed.secret[i] ^^ mask32[i]) % 64],
+                                 ELSE (seed.secret[i] ^^ mask32[i]) % 64], SecretBytes),
       birthday |-> seed.birthday,
       features |-> seed.features ^^ EncryptedBit ]
 
 \* a fresh seed from 19 random bytes, a clock value and requested user features
 FreshSeed(rnd, t, u) ==
-    [ secret   |-> [i \in 1..SecretBytes |-> IF i < 19 THEN rnd[i] ELSE rnd[i] % 64],
+    [ secret   |-> Mat([i \in 1..SecretBytes |-> IF i < 19 THEN rnd[i] ELSE rnd[i] % 64], SecretBytes),
       birthday |-> BirthdayOfTime(t),
       features |-> MakeFeatures(u) ]
 =============================================================================
